@@ -59,7 +59,13 @@ SPEC = {
                      "the order in which a document's keys are processed is not modelled (file sets, not sequences, are "
                      "compared); a load that raises is observed as 'broken' and its opened files are checked by the direct "
                      "oracle only"],
-    "assumptions": ["plaintext absence is checked on the implementation, not proved (the cipher is abstract in the theorems): "
+    "assumptions": ["the constructor route schema(key_filename=K, **saved_tree) is, for the model, load_tree of the document whose "
+                    "root-level secrets are plaintext (Secrets.v ctor_doc: Config.__init__ names the key file, then _set_value's "
+                    "each keyword; a SecureField keyword is an assignment and refuses an encrypted map, maps under "
+                    "sub-configuration keys and lists of maps are loaded as load_tree loads them); it is run on EVERY case in both "
+                    "keyword orders and compared with the model (6th component of the observation); Type(**tree) for a "
+                    "config type with a class-level key file is checked by the direct oracle only",
+                    "plaintext absence is checked on the implementation, not proved (the cipher is abstract in the theorems): "
                     "plaintexts have UTF-8 length 6..12 or (about a third) exactly 32, 33, 40, 64, 65, 100, 200 or 33..200, "
                     "ASCII and with two-byte code points, for every method (42 deterministic cases + random); every 8-byte "
                     "window of every plaintext (head, middle, tail) is searched in the output bytes and every 6-byte window "
